@@ -112,7 +112,9 @@ func runHistory(r *core.Run, i int, steps int) {
 		}
 		checkShowGrants(r, f, m, wit)
 		acctFP := g11lib.AccountFingerprint(f.Mdb)
-		probeAll(r, rnd, f, m, baseData, acctFP, wit)
+		if !probeAll(r, rnd, f, m, baseData, acctFP, wit) {
+			return // the fixture no longer equals its baseline: later observations would only repeat this one
+		}
 	}
 }
 
@@ -212,7 +214,7 @@ func levelKind(lk string) string {
 	return "table"
 }
 
-func probeAll(r *core.Run, rnd interface{ Intn(int) int }, f *g11lib.Fix, m *g11lib.Model, baseData, acctFP string, wit func(witness) witness) {
+func probeAll(r *core.Run, rnd interface{ Intn(int) int }, f *g11lib.Fix, m *g11lib.Model, baseData, acctFP string, wit func(witness) witness) bool {
 	type ident struct{ user, host string }
 	var ids []ident
 	seenName := map[string]bool{}
@@ -289,7 +291,9 @@ func probeAll(r *core.Run, rnd interface{ Intn(int) int }, f *g11lib.Fix, m *g11
 				} else {
 					r.Inconclusive("probe failed with another error where the outcome is not judged")
 				}
-				restore(r, f, p, baseData, acctFP, wit, w, false)
+				if !restore(r, f, p, baseData, acctFP, wit, w, false) {
+					return false
+				}
 				continue
 			}
 			switch want {
@@ -338,23 +342,26 @@ func probeAll(r *core.Run, rnd interface{ Intn(int) int }, f *g11lib.Fix, m *g11
 					r.Violation(sig, wit(w))
 				}
 			}
-			restore(r, f, p, baseData, acctFP, wit, w, got != g11lib.OutOK)
+			if !restore(r, f, p, baseData, acctFP, wit, w, got != g11lib.OutOK) {
+				return false
+			}
 		}
 	}
+	return true
 }
 
 // restore undoes an allowed statement as root and checks the no-effect clause for a refused one.
-func restore(r *core.Run, f *g11lib.Fix, p g11lib.Probe, baseData, acctFP string, wit func(witness) witness, w witness, refused bool) {
+func restore(r *core.Run, f *g11lib.Fix, p g11lib.Probe, baseData, acctFP string, wit func(witness) witness, w witness, refused bool) bool {
 	if !refused {
 		for _, q := range p.Restore {
 			if res := f.Root.Exec(q); res.Failed() {
 				w.Detail = fmt.Sprintf("undo statement %q failed: %v", q, res.Err)
 				r.Violation("harness:undo-failed:"+p.Kind, wit(w))
-				return
+				return false
 			}
 		}
 		if len(p.Restore) == 0 {
-			return
+			return true
 		}
 	}
 	d, a := f.DataFingerprint(), g11lib.AccountFingerprint(f.Mdb)
@@ -365,12 +372,15 @@ func restore(r *core.Run, f *g11lib.Fix, p g11lib.Probe, baseData, acctFP string
 			w.Detail = map[string]any{"data_before": strings.Split(baseData, "\n"), "data_after": strings.Split(d, "\n"),
 				"accounts_before": strings.Split(acctFP, "\n"), "accounts_after": strings.Split(a, "\n")}
 			r.Violation("refused-statement-had-an-effect:"+p.Kind, wit(w))
+			return false
 		}
-		return
+		return true
 	}
 	if d != baseData || a != acctFP {
 		w.Detail = map[string]any{"data_before": strings.Split(baseData, "\n"), "data_after": strings.Split(d, "\n"),
 			"accounts_before": strings.Split(acctFP, "\n"), "accounts_after": strings.Split(a, "\n")}
 		r.Violation("harness:state-not-restored-after-allowed:"+p.Kind, wit(w))
+		return false
 	}
+	return true
 }
